@@ -38,8 +38,8 @@ CLAIMED["C05"] = ("Unbounded proof of the parts of crash safety a contract on mo
   "negative size, ends with a footer or ErrNoValidFooter unless a file operation failed, and the footer it returns records the position it was found at; (2) persistFooter never writes a "
   "footer while earlier writes are unsynced and succeeds only with everything synced (unless NoSync); (3) append-only: footers and compaction sections are placed at or beyond the known "
   "file size; (4) a compaction configured with CompactionSync/CompactionSyncAfterBytes succeeds only with everything synced; a failing writeSegments schedules no file for removal. All blocks of ScanFooter are proved reachable (vacuity covers).",
-  "The crash model (which images a crash can leave, Sync durability, directory ordering) is assumed; 'LAST complete footer' and openStore's fallback to an older file (S3, unrepaired) are not "
-  "under contract (only that the files are tried newest first: a loop measure). encoding/json sets exported fields only (trusted). Fixed S1, S2.", "13/C05")
+  "The crash model (which images a crash can leave, Sync durability, directory ordering) is assumed; 'LAST complete footer' is not under contract; of openStore's fallback it is proved that the files are tried newest first (a loop measure) and that, once candidates exist, only a failed "
+  "removal of superseded files is fatal - an unusable newer file is skipped (S3, fixed). encoding/json sets exported fields only (trusted). Fixed S1, S2, S3.", "13/C05")
 CLAIMED["C06"] = ("Unbounded proof of error propagation and non-publication for every sequence of file-operation results (each File call returns a nondeterministic result; a short write is a "
   "failure): persistFooter/persistFooterUnsynced report any failed or short write or sync; the writer goroutine of bufferedSectionWriter hands a failure back; Store.persist, compact and "
   "compactMaybe leave s.footer untouched whenever they return an error; a failed round never schedules a pre-existing (live) file for removal and a failed full compaction schedules the file "
@@ -139,7 +139,7 @@ m = {
                                 "obligations discharged by a portfolio of z3 5.1.0, z3 4.8.12 and cvc5 1.0"}],
  "checks": checks,
  "not_applicable": [{"property_id": p, "reason": NA_REASONS.get(p, DEFAULT_NA)} for p in props if p not in CLAIMED],
- "notes": "See DESIGN.md Part II (sections 12-19) for the framework as built. Known findings: /verif/known_findings.json (witness tests in /verif/witness). Must-fail corpora: /verif/mutants (own, 76 patches: 72 detected at the end of session 2, 4 written and detected in session 3) and /verif/seeded (140 changes by blind agents in four rounds; 57 detected at first pass, 130 by the final checks; DESIGN.md section 17). Bounded stand-in (labelled bounded): /verif/bounded. ./verif selftest runs everything.",
+ "notes": "See DESIGN.md Part II (sections 12-19) for the framework as built. Known findings: /verif/known_findings.json (witness tests in /verif/witness). Must-fail corpora: /verif/mutants (own, 78 patches: 72 detected at the end of session 2, 6 written and detected in session 3) and /verif/seeded (140 changes by blind agents in four rounds; 57 detected at first pass, 130 by the final checks; DESIGN.md section 17). Bounded stand-in (labelled bounded): /verif/bounded. ./verif selftest runs everything.",
 }
 json.dump(m, open("/verif/MANIFEST.json", "w"), indent=1)
 print("claimed:", sorted(CLAIMED))
